@@ -207,11 +207,14 @@ def stream_pool():
                 ('B-ed3-comp-sec2', 3, b'\x01\x02\x03', [1001, 2001, 10], 2, True),
                 ('C-ed2-BUFR-in-data', 2, None, [205004, 1001, 205004], 1, False),
                 ('D-ed4-repl', 4, b'BUFR', [101002, 2001, 1001], 2, False),
-                ('E-ed4-empty-sec2', 4, b'', [1001], 1, False)]
+                ('E-ed4-empty-sec2', 4, b'', [1001], 1, False),
+                ('F-ed4-message-in-data', 4, None, [205000 + len(_inner())], 1, False)]
         out = []
         for name, ed, s2, descs, nsub, comp in defs:
             def ch(info, comp=comp, nsub=nsub):
-                if info['kind'] == 'str':
+                if info['kind'] == 'str' and info['width'] > 32:
+                    v = _inner()      # a complete valid message, octet aligned, inside the data section
+                elif info['kind'] == 'str':
                     v = (b'BUFR' if info['index'] == 0 else b'7777')[:info['width'] // 8]
                 else:
                     v = 1 + info['index'] % 2
@@ -221,6 +224,10 @@ def stream_pool():
             out.append((name, b, faults_for(b)))
         _SPOOL = out
     return _SPOOL
+
+
+def _inner():
+    return message.build(message.Spec(descs=[1001], nsub=1), _bits(5, 7))[0]
 
 
 def faults_for(b):
@@ -274,27 +281,37 @@ def judge_scan(items, got, exc, info_only, cont):
     damaged_any = any(d for _, d, _ in items)
     if cont and exc is not None:
         return 'continue-raises|%s' % mode, 'continue_on_error scan raised %r' % (exc,)
-    # walk: got must be a subsequence of the stream's items, in order; undamaged items are mandatory (until the scan
-    # legitimately stopped); a damaged item may only appear in metadata-only mode, with exactly its own bytes
-    gi = 0
+    # align: got must be a subsequence of the stream's items, in order (greedy); an item of got that matches nothing
+    # is a phantom; undamaged items are mandatory (until the scan legitimately stopped); a damaged item may only appear
+    # in metadata-only mode, with exactly its own bytes
+    matched = [False] * len(items)
+    pos = 0
+    for g in got:
+        k = next((i for i in range(pos, len(items)) if items[i][0] == g), None)
+        if k is None:
+            holders = [d for b, d, _ in items[pos:] if d and g in b]
+            # several damaged messages may hold the same payload: attribute to the length-damaged one if there is one
+            inside = 'length' if 'length' in holders else (holders[0] if holders else None)
+            return ('extra%s|%s' % ('-phantom-in-payload-of-%s-damaged' % inside if inside else '', mode),
+                    'the scan yielded an item of %d bytes that is not a message of the stream%s (yielded lengths %r)'
+                    % (len(g), ': it lies inside the payload of a damaged message' if inside else '', [len(x) for x in got]))
+        matched[k] = True
+        pos = k + 1
     stopped = False
-    for b, dmg, orig in items:
-        if gi < len(got) and got[gi] == b:
-            if dmg and not info_only:
-                return 'damaged-delivered|full', 'a damaged message (%d bytes) was delivered by the full scan' % len(b)
-            gi += 1
-            continue
+    for (b, dmg, orig), hit in zip(items, matched):
         if dmg:
-            if not cont:
-                # stop on error: nothing more may be delivered
-                stopped = True
-                break
-            continue
-        return ('missing|%s' % mode,
-                'an undamaged message (%d bytes) was not delivered unchanged at its position (yielded lengths %r)'
-                % (len(b), [len(x) for x in got]))
-    if gi != len(got):
-        return 'extra|%s' % mode, 'the scan yielded %d items, %d explained by the stream (lengths %r)' % (len(got), gi, [len(x) for x in got])
+            if hit and not info_only:
+                return 'damaged-delivered|full', 'a damaged message (%d bytes) was delivered by the full scan' % len(b)
+            if not hit and not cont:
+                stopped = True      # stop on error: nothing more may be delivered
+                continue
+        elif stopped:
+            if hit:
+                return 'delivered-after-error|%s' % mode, 'a message was delivered after the scan met a damaged one without continue_on_error'
+        elif not hit:
+            return ('missing|%s' % mode,
+                    'an undamaged message (%d bytes) was not delivered unchanged at its position (yielded lengths %r)'
+                    % (len(b), [len(x) for x in got]))
     if stopped and exc is None:
         return 'no-error|%s' % mode, 'a damaged message was neither delivered nor reported although continue_on_error is off'
     if not cont and not stopped and exc is not None:
@@ -315,7 +332,7 @@ def stream_body(tup):
             if f == 0:
                 items.append((b, False, b))
             else:
-                items.append((faults[f - 1][2], True, b))
+                items.append((faults[f - 1][2], faults[f - 1][1], b))
                 classes.append(faults[f - 1][1])
         stream = sep + sep.join(x[0] for x in items) + sep
         res = {'outcome': (len(tup), tuple(sorted(classes))), 'stream': stream, 'viols': []}
